@@ -168,6 +168,8 @@ impl World {
                 &salt_bytes(n[2].as_str().unwrap()),
                 &self.initcode(n[3].as_str().unwrap()),
             ),
+            // an address the real code produced that is NOT what the formulas give (only on a broken tree)
+            "unk" => hex::decode(n[1].as_str().unwrap()).ok().and_then(|b| b.try_into().ok()).unwrap_or([0x33; 20]),
             t => panic!("not an f4 name: {t}"),
         };
         self.names.borrow_mut().entry(eth_to_f4(&e).to_bytes()).or_insert_with(|| n.clone());
